@@ -28,7 +28,15 @@ def has_ignore_directive_marker(line: str) -> bool:
         True if line has ignore-file marker
     """
     line_lower = line.lower()
-    return "# thailint: ignore-file" in line_lower or "# design-lint: ignore-file" in line_lower
+    return any(
+        marker in line_lower
+        for marker in (
+            "# thailint: ignore-file",
+            "# design-lint: ignore-file",
+            "// thailint: ignore-file",
+            "// design-lint: ignore-file",
+        )
+    )
 
 
 def has_line_ignore_marker(code: str) -> bool:
@@ -58,7 +66,16 @@ def has_ignore_next_line_marker(line: str) -> bool:
     Returns:
         True if line has ignore-next-line marker
     """
-    return "# thailint: ignore-next-line" in line or "# design-lint: ignore-next-line" in line
+    line_lower = line.lower()
+    return any(
+        marker in line_lower
+        for marker in (
+            "# thailint: ignore-next-line",
+            "# design-lint: ignore-next-line",
+            "// thailint: ignore-next-line",
+            "// design-lint: ignore-next-line",
+        )
+    )
 
 
 def has_ignore_start_marker(line: str) -> bool:
